@@ -293,6 +293,36 @@ def run_dump(spec, acc):
                               {"filter": repr(entries), "style": style, "first_expected": (expected or [""])[0][:200], "first_line": (lines or [""])[0][:200]})
             if c % 5 == 0:
                 acc.sample({"filter": repr(entries), "returned_kept": kept, "returned_skipped": skipped, "lines": len(lines)})
+        if spec["i"] == 0:
+            # one long session: thousands of dumped messages through one decoder (whatever buffering the dump uses, the file
+            # is complete and line-exact once the decoder is closed)
+            pool = hist.Pool(dbx, rng, n_single=8, n_fast=0)
+            path = os.path.join(base, "long.jsonl")
+            dec = NMEA2000Decoder(dump_to_file=path)
+            expected = []
+            n_long = 9000 if quick else 70000
+            payloads = [(d_, pool.payload(d_)) for d_ in pool.singles]
+            payloads = [(d_, p_) for d_, p_ in payloads if p_ is not None]
+            for k_ in range(n_long):
+                d_, p_ = payloads[k_ % len(payloads)]
+                try:
+                    r = dec.decode_tcp(wire.ebyte_frame(wire.can_id(k_ % 8, d_.pgn, k_ % 250, 255), p_))
+                except Exception:  # noqa: BLE001
+                    r = None
+                if r is not None:
+                    expected.append(r.to_json())
+            dec.close()
+            with open(path) as fh:
+                lines = fh.read().split("\n")
+            if lines and lines[-1] == "":
+                lines.pop()
+            acc.count("dump_runs")
+            acc.count("long_dump_lines_compared", len(lines))
+            acc.case(("long-dump", n_long))
+            if lines != expected:
+                bad = next((i for i, (a_, b_) in enumerate(zip(lines, expected)) if a_ != b_), min(len(lines), len(expected)))
+                acc.violation("dump-line-content-differs:long-session", f"a session of {len(expected)} dumped messages: the file has {len(lines)} lines, first difference at line {bad + 1}",
+                              {"expected_lines": len(expected), "file_lines": len(lines), "first_difference_at_line": bad + 1})
     finally:
         shutil.rmtree(base, ignore_errors=True)
 
